@@ -108,8 +108,12 @@ MkBlock(i, nb, tpl, tgtIdx, layout, endSym, annMode, annAt, cl, noSym, al) ==
        esyms |-> IF endSym THEN <<EName(i)>> ELSE <<>>,
        fn |-> f,
        entry |-> (f # "" /\ f = BName(i)),
-       ann |-> IF annMode # "none" /\ annAt[1] = i
-               THEN << <<annAt[2], "comments", annMode, "c">> >> ELSE <<>>,
+       \* one annotation at the chosen place, and a second one at the start of the last
+       \* block (two entries in one byte interval: insertion order is not address order)
+       ann |-> (IF annMode # "none" /\ annAt[1] = i
+                THEN << <<annAt[2], "comments", annMode, "c">> >> ELSE <<>>)
+               \o (IF annMode # "none" /\ i = nb /\ annAt # <<nb, 0>>
+                   THEN << <<0, "comments", annMode, "c2">> >> ELSE <<>>),
        cfi |-> MergeCfi(CfiOf(cl, i, nb, units, IsData(tpl))),
        align |-> IF i = 1 THEN al ELSE 0]
 
@@ -129,7 +133,8 @@ ShapeParams ==
      /\ (p.am # "none" => p.annAt[1] <= p.nb)
      /\ (p.layout \in {"split", "tail"} => p.nb >= 2 /\ ~IsData(p.tpl[2]))
      /\ (p.layout \in {"one", "split"} => ~IsData(p.tpl[1]))
-     /\ (p.cl # "none" => ~IsData(p.tpl[1]) /\ ~IsData(p.tpl[p.nb]))
+     /\ (p.cl \in {"proc_all", "proc_rs"} => ~IsData(p.tpl[1]) /\ ~IsData(p.tpl[p.nb]))
+     /\ (p.cl = "proc_each" => \E i \in 1..p.nb : ~IsData(p.tpl[i]))
      /\ (p.cl = "proc_rs" /\ p.nb >= 2 => ~IsData(p.tpl[2]))}
 
 DataSection(tgtIdx) ==
